@@ -662,9 +662,11 @@ impl Session {
         let shards = (self.threads as u64).min((cases / 32).max(1));
         let per = cases.div_ceil(shards);
         let stop = AtomicBool::new(false);
+        let reported = AtomicBool::new(false);
         std::thread::scope(|scope| {
             for shard in 0..shards {
                 let stop = &stop;
+                let reported = &reported;
                 let check = &check;
                 let mk = &mk;
                 std::thread::Builder::new()
@@ -712,8 +714,11 @@ impl Session {
                         match result {
                             Ok(()) => {}
                             Err(TestError::Fail(reason, value)) => {
-                                let j = serde_json::to_value(&value).unwrap_or(J::Null);
-                                self.record_violation(name, &reason.to_string(), &j);
+                                // several shards may fail before they see the stop flag: report one
+                                if !reported.swap(true, Ordering::SeqCst) {
+                                    let j = serde_json::to_value(&value).unwrap_or(J::Null);
+                                    self.record_violation(name, &reason.to_string(), &j);
+                                }
                             }
                             Err(TestError::Abort(reason)) => {
                                 self.inconclusive(format!("generator {name} aborted: {reason}"));
